@@ -1,6 +1,6 @@
 #!/bin/bash
 # confirm a sub-agent delivery: work/confirm.sh <id> (e.g. C14-A); uses worktree /tmp/wt/<prop>
-id=$1; prop=${id%%-*}; wt=/tmp/wt/$prop; [ -d /tmp/wt/${prop}r2 ] && wt=/tmp/wt/${prop}r2; [ -d /tmp/wt/${prop}r3 ] && wt=/tmp/wt/${prop}r3; [ -d /tmp/wt/${prop}r4 ] && wt=/tmp/wt/${prop}r4; d=/tmp/seed/$id
+id=$1; prop=${id%%-*}; wt=/tmp/wt/$prop; [ -d /tmp/wt/${prop}r2 ] && wt=/tmp/wt/${prop}r2; [ -d /tmp/wt/${prop}r3 ] && wt=/tmp/wt/${prop}r3; [ -d /tmp/wt/${prop}r4 ] && wt=/tmp/wt/${prop}r4; [ -d /tmp/wt/${prop}r6 ] && wt=/tmp/wt/${prop}r6; d=/tmp/seed/$id
 cd $wt || exit 2
 git checkout -q -- . ; git clean -fdq -e target
 echo "== $id: patch"; cat $d/patch.diff | head -60
